@@ -259,6 +259,11 @@ func unary[Req, Resp any](c *pdClient, ctx context.Context, method string, in *R
 	case <-ctx.Done():
 		simrt.Resume()
 		return nil, status.FromContextError(ctx.Err()).Err()
+	case <-ep.ctx.Done():
+		// the serving process died: the connection breaks
+		simrt.Resume()
+		n.Sim.Count("net.server-died")
+		return nil, errUnavail
 	}
 }
 
@@ -270,6 +275,7 @@ type streamCore[C2S, S2C any] struct {
 	from, to int
 	ctx      context.Context // client side context
 	sctx     context.Context // server side context
+	epctx    context.Context // serving node's root context
 	c2s      chan *C2S
 	s2c      chan *S2C
 	mu       sync.Mutex
@@ -300,7 +306,7 @@ func openStream[C2S, S2C any](c *pdClient, ctx context.Context, method string, r
 		return nil, errUnavail
 	}
 	hctx, cancel := handlerCtx(ep, ctx)
-	core := &streamCore[C2S, S2C]{n: n, method: method, from: from, to: ep.node, ctx: ctx, sctx: hctx,
+	core := &streamCore[C2S, S2C]{n: n, method: method, from: from, to: ep.node, ctx: ctx, sctx: hctx, epctx: ep.ctx,
 		c2s: make(chan *C2S, 1024), s2c: make(chan *S2C, 1024), srvDone: make(chan struct{})}
 	n.Sim.Spawn(ep.node, "stream."+method, func() {
 		defer cancel()
@@ -374,6 +380,10 @@ func (s *clientStream[C2S, S2C]) Recv() (*S2C, error) {
 		case <-s.ctx.Done():
 			simrt.Resume()
 			return nil, status.FromContextError(s.ctx.Err()).Err()
+		case <-s.epctx.Done():
+			simrt.Resume()
+			s.n.Sim.Count("net.server-died")
+			return nil, errUnavail
 		}
 	}
 }
